@@ -94,20 +94,19 @@ def part_allowed(weights, k: int):
 
 
 def float_exact(weights, k: int) -> bool:
-    """True when the straightforward binary64 computation (running sums, k/2^32 * total,
-    comparisons) is exact, so that no tolerance is owed at this point: every running sum
-    and the product k*T are integers multiples of 2^-20 below 2^52 after scaling."""
-    c = Fraction(0)
+    """True when the straightforward binary64 computation is exact at this point, so that no tolerance
+    is owed: the running sums accumulated in floats equal the exact rational sums, and (k / 2^32) * total
+    computed in floats equals the exact product."""
+    acc, c = 0.0, Fraction(0)
     for w in weights:
-        c += w
-        if (c * (1 << 20)).denominator != 1 or c >= (1 << 20):
+        try:
+            acc += float(w)
+        except OverflowError:
             return False
-    # k*T/2^32: numerator k*T*2^20 < 2^32 * 2^20 * 2^20 is too big in general; require the
-    # product to have at most 53 significant bits
-    n = (Fraction(k) * c * (1 << 20)).numerator
-    while n and n % 2 == 0:
-        n //= 2
-    return n < (1 << 53)
+        c += w
+        if Fraction(acc) != c:
+            return False
+    return Fraction((k / 4294967296) * acc) == Fraction(k, 1 << 32) * c
 
 
 def expected_group(ast, env):
